@@ -159,6 +159,7 @@ func c18(c *Ctx) {
 	c18Storage(c)
 	c18Token(c)
 	c18OptionOrder(c)
+	c18RecordLayoutAgrees(c)
 }
 
 func c18Getter(c *Ctx, fn *ssa.Function) int {
@@ -525,6 +526,29 @@ func c18Storage(c *Ctx) {
 		key := fn.Params[1]
 		bad := ""
 		seen := map[ssa.Value]bool{}
+		// the namespace: a field of the storage object itself (whatever it is called)
+		recv := fn.Params[0]
+		var nsLike func(v ssa.Value, d int) bool
+		nsLike = func(v ssa.Value, d int) bool {
+			if d > 5 || v == nil {
+				return false
+			}
+			switch x := v.(type) {
+			case *ssa.Convert:
+				return nsLike(x.X, d+1)
+			case *ssa.ChangeType:
+				return nsLike(x.X, d+1)
+			case *ssa.Slice:
+				return nsLike(x.X, d+1)
+			case *ssa.UnOp:
+				if fa, ok := x.X.(*ssa.FieldAddr); ok && x.Op == token.MUL {
+					return c15Root(fa.X) == ssa.Value(recv)
+				}
+			case *ssa.BinOp:
+				return nsLike(x.X, d+1) || nsLike(x.Y, d+1)
+			}
+			return false
+		}
 		var walk func(v ssa.Value)
 		walk = func(v ssa.Value) {
 			if seen[v] || v.Referrers() == nil {
@@ -541,7 +565,7 @@ func c18Storage(c *Ctx) {
 				case *ssa.Call:
 					if bi, ok := x.Call.Value.(*ssa.Builtin); ok && bi.Name() == "append" {
 						// append(ns, key...): fine when the destination is the namespace
-						if len(x.Call.Args) == 2 && x.Call.Args[1] == v && strings.Contains(Render(x.Call.Args[0]), ".ns") {
+						if len(x.Call.Args) == 2 && x.Call.Args[1] == v && (nsLike(x.Call.Args[0], 0) || strings.Contains(Render(x.Call.Args[0]), ".ns")) {
 							continue
 						}
 					}
@@ -555,7 +579,7 @@ func c18Storage(c *Ctx) {
 					}
 					bad = p.InstrPos(x) + " `" + RenderN(x, 2) + "`"
 				case *ssa.BinOp:
-					if x.Op == token.ADD && strings.Contains(Render(x), ".ns") {
+					if x.Op == token.ADD && (nsLike(x, 0) || strings.Contains(Render(x), ".ns")) {
 						continue
 					}
 					bad = p.InstrPos(x) + " `" + RenderN(x, 2) + "`"
